@@ -456,6 +456,10 @@ func (g *specGen) history(t int) {
 			// (a memo keyed by a fingerprint, by identity or by length collides only with near twins)
 			b0 := g.newSlot()
 			g.emit(t, Op{K: opMarshal, A: o, B: b0})
+			decodeToo := g.r.chance(2) // the decoders meet the near twins as well, one after the other
+			if decodeToo {
+				g.decodeOps(t, b0)
+			}
 			for i, k := 0, 2+g.r.intn(5); i < k; i++ {
 				g.emit(t, Op{K: opMutate, A: o, B: -1, N: 1, Seed: g.r.u64()})
 				g.s.Plan.BadValue++
@@ -464,7 +468,7 @@ func (g *specGen) history(t int) {
 				if g.r.chance(2) {
 					g.readOnlyOps(t, o, 1, false)
 				}
-				if g.r.chance(3) {
+				if decodeToo || g.r.chance(3) {
 					g.decodeOps(t, bi)
 				}
 			}
@@ -769,6 +773,9 @@ func genSpec(seed uint64, cold bool, opOnly bool, tier string) *RunSpec {
 						g.readOnlyOps(t, o, 1, false)
 						b2 := g.newSlot()
 						g.emit(t, Op{K: opMarshal, A: o, B: b2})
+						if g.r.chance(2) {
+							g.decodeOps(t, b2)
+						}
 					}
 					g.r = save
 				case 2:
